@@ -11,7 +11,7 @@
  *     `fcntl` and `open` are variadic in libc; their contracts are fixed-arity
  *     (a variadic body makes the DFCC instance explode), the missing third
  *     argument is passed as 0;
- *  3. `errno` is the ghost `g.err`.
+ *  3. `errno` is the ghost `g.e.err`.
  */
 #ifndef VERIF_RENAME_H
 #define VERIF_RENAME_H
@@ -38,7 +38,7 @@
 #include "ghost.h"
 
 #undef errno
-#define errno (g.err)
+#define errno (g.e.err)
 
 #define VERIF_PICK3(a, b, c, ...) a, b, c
 #define fcntl(...) verif_fcntl(VERIF_PICK3(__VA_ARGS__, 0, 0))
@@ -107,39 +107,36 @@ char *verif_strdup(const char *s);
 /* setup_input: the k-th write continues at data + written; nothing sleeps;
    a failing write leaves the loop at once */
 #define REPROC_VERIF_LOOP_setup_input                                          \
-  __CPROVER_assigns(written, r, g.os_calls, g.wr_calls, g.wr_fd, g.wr_buf, g.wr_n, \
-                    g.wr_errno, g.wr_ret, g.may_block, g.err, g.faults,        \
-                    g.first_errno, g.last_fault, g.stream_pos, g.in_fd)                      \
+  __CPROVER_assigns(written, r, g.e, g.wl, g.may_block, g.stream_pos, g.in_fd)   \
   __CPROVER_loop_invariant(written <= size && g.stream_pos == written &&       \
                            g.may_block == __CPROVER_loop_entry(g.may_block) && \
-                           g.faults == __CPROVER_loop_entry(g.faults) &&       \
-                           g.err == __CPROVER_loop_entry(g.err) &&             \
-                           g.first_errno == __CPROVER_loop_entry(g.first_errno) && \
-                           g.last_fault == __CPROVER_loop_entry(g.last_fault) && \
-                           g.os_calls >= __CPROVER_loop_entry(g.os_calls) &&   \
+                           g.e.faults == __CPROVER_loop_entry(g.e.faults) &&       \
+                           g.e.err == __CPROVER_loop_entry(g.e.err) &&             \
+                           g.e.first_errno == __CPROVER_loop_entry(g.e.first_errno) && \
+                           g.e.last_fault == __CPROVER_loop_entry(g.e.last_fault) && \
+                           g.e.os_calls >= __CPROVER_loop_entry(g.e.os_calls) &&   \
                            (written == 0 ? g.in_fd == -1 : g.in_fd == *pipe))                 \
   __CPROVER_decreases(size - written)
 /* close-all loop of process_fork (child side): everything below i that is not
    kept is closed; everything kept, and everything from i on, is as it was */
 #define VERIF_KEEP_MASK (MASK_OF(except[0]) | MASK_OF(except[1]) | MASK_OF(except[2]) | MASK_OF(except[3]) | MASK_OF(except[4]) | MASK_OF(except[5]) | MASK_OF(pipe.read) | MASK_OF(pipe.write))
-#define VERIF_OBJ_KEPT(k) (!FD_OK(except[k]) || g.obj[except[k] & 31] == __CPROVER_loop_entry(g.obj[except[k] & 31]))
+#define VERIF_OBJ_KEPT(k) (!FD_OK(except[k]) || g.fds.obj[except[k] & 31] == __CPROVER_loop_entry(g.fds.obj[except[k] & 31]))
 #define VERIF_LOW(n) ((n) >= 32 ? 0xffffffffu : ((1u << (n)) - 1u))
 #define REPROC_VERIF_LOOP_close_all                                            \
-  __CPROVER_assigns(i, r, g.os_calls, g.open, g.lib, g.cloexec, g.nonblock, g.rd, g.wr, \
-                    g.obj, g.err, g.faults, g.first_errno, g.last_fault) \
+  __CPROVER_assigns(i, r, g.e, g.fds)                                            \
   __CPROVER_loop_invariant(0 <= i && i <= max_fd + 1 &&                        \
-                           (g.open & VERIF_LOW(i) & ~VERIF_KEEP_MASK) == 0 &&  \
-                           (g.open & (VERIF_KEEP_MASK | ~VERIF_LOW(i))) ==     \
-                               (__CPROVER_loop_entry(g.open) & (VERIF_KEEP_MASK | ~VERIF_LOW(i))) && \
-                           (g.cloexec & VERIF_KEEP_MASK) == (__CPROVER_loop_entry(g.cloexec) & VERIF_KEEP_MASK) && \
-                           (g.rd & VERIF_KEEP_MASK) == (__CPROVER_loop_entry(g.rd) & VERIF_KEEP_MASK) && \
-                           (g.wr & VERIF_KEEP_MASK) == (__CPROVER_loop_entry(g.wr) & VERIF_KEEP_MASK) && \
+                           (g.fds.open & VERIF_LOW(i) & ~VERIF_KEEP_MASK) == 0 &&  \
+                           (g.fds.open & (VERIF_KEEP_MASK | ~VERIF_LOW(i))) ==     \
+                               (__CPROVER_loop_entry(g.fds.open) & (VERIF_KEEP_MASK | ~VERIF_LOW(i))) && \
+                           (g.fds.cloexec & VERIF_KEEP_MASK) == (__CPROVER_loop_entry(g.fds.cloexec) & VERIF_KEEP_MASK) && \
+                           (g.fds.rd & VERIF_KEEP_MASK) == (__CPROVER_loop_entry(g.fds.rd) & VERIF_KEEP_MASK) && \
+                           (g.fds.wr & VERIF_KEEP_MASK) == (__CPROVER_loop_entry(g.fds.wr) & VERIF_KEEP_MASK) && \
                            VERIF_OBJ_KEPT(0) && VERIF_OBJ_KEPT(1) && VERIF_OBJ_KEPT(2) && \
                            VERIF_OBJ_KEPT(3) && VERIF_OBJ_KEPT(4) && VERIF_OBJ_KEPT(5) && \
-                           g.faults == __CPROVER_loop_entry(g.faults) && \
-                           g.first_errno == __CPROVER_loop_entry(g.first_errno) && \
-                           g.last_fault == __CPROVER_loop_entry(g.last_fault) && \
-                           g.err >= 0 && g.err < 134 && g.os_calls >= __CPROVER_loop_entry(g.os_calls)) \
+                           g.e.faults == __CPROVER_loop_entry(g.e.faults) && \
+                           g.e.first_errno == __CPROVER_loop_entry(g.e.first_errno) && \
+                           g.e.last_fault == __CPROVER_loop_entry(g.e.last_fault) && \
+                           g.e.err >= 0 && g.e.err < 134 && g.e.os_calls >= __CPROVER_loop_entry(g.e.os_calls)) \
   __CPROVER_decreases(max_fd + 1 - (long) i)
 /* reproc_drain: the text of the invariant (VERIF_DRAIN_INV, over the harness's
    sink-protocol monitor) lives in harness/h_drain.c; no variant: termination of
